@@ -51,7 +51,7 @@ fn kf(pos: f32, a: Option<f32>, k: Option<i32>, d: Option<f64>, e: Option<u8>) -
     Kf { pos, a, k, d, easing: e }
 }
 
-/// 14 shapes; `variant` 0 uses Linear/custom polynomial easings, 1 uses built-in Bezier easings
+/// 15 shapes; `variant` 0 uses Linear/custom polynomial easings, 1 uses built-in Bezier easings
 /// (Ease / InOutCubic / OutBack) in the same places.
 pub fn pool(variant: u8) -> Vec<(&'static str, Vec<TlSpec>)> {
     let e = |i: u8| -> u8 {
@@ -94,6 +94,9 @@ pub fn pool(variant: u8) -> Vec<(&'static str, Vec<TlSpec>)> {
         ("empty-merged-list", vec![]),
         ("infinite-delay-equals-cycle", vec![one(vec![kf(0.0, Some(-20.0), Some(-200), None, None), kf(1.0, Some(60.0), Some(300), None, None)], e(0), t(0.5, 0.5, Rep::Infinite, false))]),
         ("times-2-delayed", vec![one(vec![kf(0.0, Some(5.0), None, None, None), kf(0.5, Some(45.0), None, None, Some(e(1))), kf(1.0, Some(-15.0), None, None, None)], e(0), t(0.5, 0.25, Rep::Times(2), false))]),
+        // negative delay: the animation is already half-way through when the state is entered (entering it
+        // legitimately moves the values at once, so this shape is left out of the C04 no-jump runs)
+        ("negative-delay", vec![one(vec![kf(0.0, Some(40.0), Some(-40), None, None), kf(1.0, Some(120.0), Some(80), None, None)], e(0), t(1.0, -0.5, Rep::None, false))]),
     ]
 }
 
@@ -668,6 +671,8 @@ fn c07_nondyadic(acc: &mut Acc) {
     let kf2 = |a0: f32, a1: f32| vec![Kf { pos: 0.0, a: Some(a0), k: Some(1), d: None, easing: None }, Kf { pos: 1.0, a: Some(a1), k: Some(9), d: None, easing: None }];
     let specs: Vec<Vec<TlSpec>> = vec![
         vec![TlSpec { kfs: kf2(0.1, 12.7), default_easing: 4, timing: Timing::new(0.3, 0.1, Rep::Times(2), false) }],
+        // total 0.3 = 3 x 0.1: a single advance(0.3) lands exactly on the end instant
+        vec![TlSpec { kfs: kf2(0.0, 100.0), default_easing: 0, timing: Timing::new(0.1, 0.0, Rep::Times(2), false) }],
         vec![TlSpec { kfs: kf2(-3.3, 0.9), default_easing: 0, timing: Timing::new(0.7, 0.0, Rep::None, true) }],
         vec![TlSpec { kfs: kf2(5.5, -5.5), default_easing: 5, timing: Timing::new(1.1, 0.3, Rep::Times(1), false) }],
         vec![TlSpec { kfs: kf2(1.0, 2.0), default_easing: 0, timing: Timing::new(0.3, 0.0, Rep::None, false) }, TlSpec { kfs: kf2(7.0, 8.0), default_easing: 0, timing: Timing::new(0.7, 0.1, Rep::Times(1), false) }],
@@ -710,6 +715,15 @@ fn c07_nondyadic(acc: &mut Acc) {
                     // values are at rest only strictly after the end instant (at t == total the timeline is still on its last active instant)
                     if a.is_ended() && t > reported && frozen.is_none() {
                         frozen = Some(a.current_values().clone());
+                    }
+                    // at rest on the terminal values (tolerance: float rounding of the non-dyadic landing)
+                    if a.is_ended() {
+                        let mut term = initial_values();
+                        merged.update(&mut term, f32::MAX);
+                        let v = a.current_values();
+                        if (v.a - term.a).abs() > 1e-3 * term.a.abs().max(1.0) || (v.k - term.k).abs() > 1 {
+                            acc.sink.add("non-dyadic:ended-but-not-on-terminal-values", rank, || (format!("is_ended() but values {:?}, terminal values {:?}", v, term), mk()));
+                        }
                     }
                     was_ended = a.is_ended();
                 }
@@ -891,13 +905,17 @@ pub fn run(run: Run, prop: Prop) -> ! {
     // configurations: all 144 (X shape, Y shape); easing variant alternates in quick, both in thorough;
     // initial state X (animated from non-default initial values) or U1 (every 5th config)
     let mut cfgs: Vec<(usize, usize, u8, S4, Option<usize>)> = vec![];
-    let np = pool(0).len();
-    for xi in 0..np {
+    // The last shape (negative delay) is never the initial state's timeline (the animator does not evaluate
+    // at construction, which is outside the statements) and is left out of the C04 no-jump runs entirely
+    // (entering a timeline that is already half-way through legitimately moves the values at once).
+    let npx = pool(0).len() - 1;
+    let np = pool(0).len() - if prop == Prop::C04 { 1 } else { 0 };
+    for xi in 0..npx {
         for yi in 0..np {
             let idx = xi * np + yi;
             let init = if idx % 5 == 4 { S4::U1 } else { S4::X };
             // every 4th configuration (thorough: an extra copy of every configuration) animates U2 too
-            let z = Some((xi * 3 + yi * 5 + 1) % np);
+            let z = Some((xi * 3 + yi * 5 + 1) % npx);
             if thorough {
                 cfgs.push((xi, yi, 0, init, None));
                 cfgs.push((xi, yi, 1, init, None));
@@ -920,7 +938,6 @@ pub fn run(run: Run, prop: Prop) -> ! {
             if fo == ops.len() {
                 acc.configs += 1;
                 explore_deviations(&cfg, init, &ops, dev_len, dev_k, prop, rank0, acc);
-                let np = pool(0).len();
                 if thorough || yi == xi || yi == (xi + 1) % np {
                     let (st, tr, dp, capped) = explore_bfs(&cfg, init, Duration::from_secs(10), bfs_cap, prop, rank0, acc);
                     acc.bfs_states += st;
@@ -985,11 +1002,11 @@ pub fn run(run: Run, prop: Prop) -> ! {
     cov.insert("traces_validated_against_impl".into(), json!(acc.histories));
     cov.insert("evaluations".into(), json!(acc.checks));
     cov.insert("distinct_nontrivial".into(), json!(acc.nontrivial));
-    cov.insert("rule".into(), json!(format!("{} animator configurations (X and Y timelines from a pool of 14 shapes: finite, to-only, mid-keyframe-only, delayed, Times 1, reversing, infinite, infinite-reversing-delayed, merged disjoint finite+infinite, merged overlapping, partial, empty merged list, infinite with delay = cycle, delayed Times 2; two un-animated states (in every 4th configuration - thorough: an extra copy of every configuration - U2 is a third animated state, so A -> B -> C -> A histories occur); Linear/polynomial or built-in Bezier easings; non-default initial values; initial state X or U1) x ALL histories of length 1..={} over the alphabet [{}] (a state is the history: the real animator is rebuilt and replayed; clauses are evaluated on the last operation of each history, so every operation of every history is checked once) + deviation-bounded pass: default advance(1/4), all histories of length <= {} with <= {} deviations + de-duplicating breadth-first pass keyed on the complete mutable state (counts under bfs_pass; a capped level is reported, everything below the cap depth is complete). {}", cfgs.len(), depth, ops.iter().map(|o| o.name()).collect::<Vec<_>>().join(", "), dev_len, dev_k, match prop {
+    cov.insert("rule".into(), json!(format!("{} animator configurations (X and Y timelines from a pool of 14 shapes: finite, to-only, mid-keyframe-only, delayed, Times 1, reversing, infinite, infinite-reversing-delayed, merged disjoint finite+infinite, merged overlapping, partial, empty merged list, infinite with delay = cycle, delayed Times 2, negative delay (not in C04 runs); two un-animated states (in every 4th configuration - thorough: an extra copy of every configuration - U2 is a third animated state, so A -> B -> C -> A histories occur); Linear/polynomial or built-in Bezier easings; non-default initial values; initial state X or U1) x ALL histories of length 1..={} over the alphabet [{}] (a state is the history: the real animator is rebuilt and replayed; clauses are evaluated on the last operation of each history, so every operation of every history is checked once) + deviation-bounded pass: default advance(1/4), all histories of length <= {} with <= {} deviations + de-duplicating breadth-first pass keyed on the complete mutable state (counts under bfs_pass; a capped level is reported, everything below the cap depth is complete). {}", cfgs.len(), depth, ops.iter().map(|o| o.name()).collect::<Vec<_>>().join(", "), dev_len, dev_k, match prop {
         Prop::C04 => "Oracle: current_values bit-identical before/after every set_state; same-state set_state leaves time, pause record and is_ended unchanged. non-trivial = set_state calls that change the state",
         Prop::C05 => "Oracle: RefAnimator stepped alongside (current_state, time in state via hook, live pause record via hook, values = state's merged timeline started from the values observed at entry, evaluated at the time in state; un-animated fields bit-identical). non-trivial = operations after which the current state animates at least one property",
         Prop::C06 => "Companion: every sequence of 2..5 non-representable steps (0.1,0.2,0.3,1/3,0.7) vs one advance of their f32 sum, values within float rounding (1e-3 of the value scale; sequences ending within 2e-5 s of a reference discontinuity skipped). Oracle: the history and its normal form (consecutive advances merged, zero advances and same-state changes dropped) end with bit-identical values, state and is_ended; advance(0) is a no-op. non-trivial = histories that differ from their normal form",
-        Prop::C07 => "Companion: 4 non-dyadic timelines (cycles 0.3/0.7/1.1, delays 0.1/0.3, a merged pair) x all step sequences of length <= 6 over {0.1,0.05,0.7,1.0,0.3}: is_ended <=> time in state >= the reported duration(), sticky, values bit-constant after the end. Oracle: is_ended <=> no timeline or time in state >= max over components of delay+cycle*(repeats+1), never with an infinite component; sticky; values bit-constant under advances after the end and equal to the reference terminal values. non-trivial = operations across which the reference end status flips",
+        Prop::C07 => "Companion: 5 non-dyadic timelines (cycles 0.1/0.3/0.7/1.1, delays 0/0.1/0.3, a merged pair) x all step sequences of length <= 6 over {0.1,0.05,0.7,1.0,0.3}: is_ended <=> time in state >= the reported duration(), sticky, values bit-constant after the end. Oracle: is_ended <=> no timeline or time in state >= max over components of delay+cycle*(repeats+1), never with an infinite component; sticky; values bit-constant under advances after the end and equal to the reference terminal values. non-trivial = operations across which the reference end status flips",
     })));
     cov.insert("exhaustive".into(), json!(true));
     cov.insert("depth".into(), json!(depth));
